@@ -4,6 +4,7 @@ package main
 
 import (
 	"bufio"
+	"crypto/tls"
 	"fmt"
 	"net"
 	"net/http"
@@ -17,13 +18,13 @@ import (
 )
 
 // C15 — Shutdown is graceful.
-// Scenario letters per connection: i = served one request and now idle keep-alive; h = handler parked on a gate when
+// Scenario letters per connection: t = TLS-style connection still in its handshake when Shutdown begins; i = served one request and now idle keep-alive; h = handler parked on a gate when
 // Shutdown begins (released `delay` ms later); w = accepted, ConnState(StateNew) hook parked (Serve loop between Accept and worker); k = the same for the second request of a keep-alive connection; p = two pipelined requests, the first parked; c = served and closed by client.
 func init() {
 	Register(&Prop{
 		ID: "C15", NoShrink: true,
-		Rule: "Serve over an in-memory listener with 1..4 connections in scripted positions (idle keep-alive, handler of the first or of the second keep-alive request in flight on a gate, pipelined with the first handler in flight, already closed) when Shutdown is called, ReduceMemoryUsage on/off, on a fresh Server or on one that already went through a Serve/Shutdown cycle; handlers are released 0..60 ms after Shutdown began; " +
-			"monitor at Shutdown's nil return: listener refuses Dial, Serve has returned, no handler is running, every started handler's response reached its client, Done was closed while handlers were in flight, idle connections were closed; " +
+		Rule: "Serve over an in-memory listener with 1..4 connections in scripted positions (TLS-style connection still in its handshake, idle keep-alive, handler of the first or of the second keep-alive request in flight on a gate, pipelined with the first handler in flight, already closed) when Shutdown is called, ReduceMemoryUsage on/off, on a fresh Server or on one that already went through a Serve/Shutdown cycle; handlers are released 0..60 ms after Shutdown began; " +
+			"monitor at Shutdown's nil return: listener refuses Dial, Serve has returned, no handler is running, no handler starts after Shutdown returned, every started handler's response reached its client, Done was closed while handlers were in flight, idle connections were closed; " +
 			"non-trivial = at least one handler in flight at Shutdown; distinct = distinct input",
 		Parallel: true,
 		Build: func(kind string, a [][]byte) *Case {
@@ -53,6 +54,9 @@ func init() {
 					}
 				},
 				Handler: func(ctx *fasthttp.RequestCtx) {
+					if shutdownReturned.Load() {
+						startedAfterReturn.Add(1)
+					}
 					running.Add(1)
 					defer running.Add(-1)
 					if ctx.QueryArgs().Has("hold") {
@@ -93,8 +97,14 @@ func init() {
 				}
 				ln0.Close()
 			}
+			// 't': a TLS-style connection (the server's tlsConn interface) whose handshake is still going on when Shutdown
+			// begins: accepted, handed to a worker, not yet reading its request
+			gateTLS := make(chan struct{})
+			var wrapTLS atomic.Bool
+			var handshaking atomic.Int32
+			serveLn := net.Listener(&c15Listener{Listener: ln, wrap: &wrapTLS, gate: gateTLS, handshaking: &handshaking})
 			serveDone := make(chan struct{})
-			go func() { s.Serve(ln); close(serveDone) }()
+			go func() { s.Serve(serveLn); close(serveDone) }()
 			type cl struct {
 				c        net.Conn
 				br       *bufio.Reader
@@ -146,6 +156,9 @@ func init() {
 				if script[i] == 'w' {
 					parkNew.Store(true)
 				}
+				if script[i] == 't' {
+					wrapTLS.Store(true)
+				}
 				c, err := ln.Dial()
 				if err != nil {
 					break
@@ -173,6 +186,13 @@ func init() {
 				case 'w':
 					fmt.Fprintf(c, "GET /?id=%dw HTTP/1.1\r\nHost: h\r\n\r\n", i)
 					k.expect = []string{fmt.Sprintf("ok-%dw", i)}
+				case 't':
+					fmt.Fprintf(c, "GET /?id=%dt HTTP/1.1\r\nHost: h\r\n\r\n", i)
+					k.expect = []string{fmt.Sprintf("ok-%dt", i)}
+					dlT := time.Now().Add(3 * time.Second)
+					for handshaking.Load() == 0 && time.Now().Before(dlT) {
+						time.Sleep(time.Millisecond)
+					}
 				case 'p':
 					fmt.Fprintf(c, "GET /?id=%d&hold=1 HTTP/1.1\r\nHost: h\r\n\r\nGET /?id=%dx HTTP/1.1\r\nHost: h\r\n\r\n", i, i)
 					k.expect = []string{fmt.Sprintf("ok-%d", i)}
@@ -239,11 +259,12 @@ func init() {
 			time.Sleep(delay)
 			runningAtRelease := running.Load()
 			close(gate)
-			if strings.Contains(script, "w") {
-				// keep the Serve loop parked well beyond the grace given to Serve's own return below
+			if strings.ContainsAny(script, "wt") {
+				// keep the Serve loop parked (the handshake going on) well beyond the grace given to Serve's own return below
 				time.Sleep(400*time.Millisecond - min(delay, 400*time.Millisecond))
 			}
 			close(gateNew)
+			close(gateTLS)
 			var err error
 			var runningAtReturn int32
 			var serveReturned, dialRefused bool
@@ -275,7 +296,7 @@ func init() {
 			}
 			impl := fmt.Sprintf("err=%v took=%dms runningAtRelease=%d runningAtReturn=%d serveReturned=%v dialRefused=%v missing=%v doneSeen=%d/%d",
 				err, took.Milliseconds(), runningAtRelease, runningAtReturn, serveReturned, dialRefused, missing, doneSeen.Load(), nHold)
-			return &Case{Impl: impl, Nontrivial: nHold > 0 || strings.Contains(script, "w"), Tags: []string{"shutdown", fmt.Sprintf("rm=%v", reduceMem), fmt.Sprintf("second-cycle=%v", secondCycle)},
+			return &Case{Impl: impl, Nontrivial: nHold > 0 || strings.ContainsAny(script, "wt"), Tags: []string{"shutdown", fmt.Sprintf("rm=%v", reduceMem), fmt.Sprintf("second-cycle=%v", secondCycle)},
 				Judge: func([]string) Verdict {
 					desc := fmt.Sprintf("script %q delay %v ReduceMemoryUsage=%v secondServeShutdownCycleOfThisServer=%v: %s", script, delay, reduceMem, secondCycle, impl)
 					if warmErr != "" {
@@ -323,6 +344,8 @@ func init() {
 				}
 				if r.Chance(30) {
 					sc = append(sc, 'w') // always last: its parked hook blocks the accept loop
+				} else if r.Chance(25) {
+					sc = append(sc, 't') // last: its handshake ends after Shutdown began
 				} else if r.Chance(30) {
 					// connections that all stay open, then a ServeConn call that is turned away
 					sc = sc[:0]
@@ -336,3 +359,34 @@ func init() {
 		},
 	})
 }
+
+// c15Listener hands out, when asked to, a connection that satisfies the server's tlsConn interface and whose handshake
+// blocks on a gate
+type c15Listener struct {
+	net.Listener
+	wrap        *atomic.Bool
+	gate        chan struct{}
+	handshaking *atomic.Int32
+}
+
+func (l *c15Listener) Accept() (net.Conn, error) {
+	c, err := l.Listener.Accept()
+	if err == nil && l.wrap.CompareAndSwap(true, false) {
+		return &c15TLSConn{Conn: c, gate: l.gate, handshaking: l.handshaking}, nil
+	}
+	return c, err
+}
+
+type c15TLSConn struct {
+	net.Conn
+	gate        chan struct{}
+	handshaking *atomic.Int32
+}
+
+func (c *c15TLSConn) Handshake() error {
+	c.handshaking.Add(1)
+	<-c.gate
+	return nil
+}
+
+func (c *c15TLSConn) ConnectionState() tls.ConnectionState { return tls.ConnectionState{} }
